@@ -1,6 +1,6 @@
 (* C05 — tight packing: padding only where alignment demands it. *)
 From Coq Require Import ZArith List Bool.
-From Cntgs Require Import Base BaseLemmas Layout LayoutThm Mem Vector Spec Rep EsizeThm Refine TightThm NtRefine.
+From Cntgs Require Import Base BaseLemmas Layout LayoutThm Mem Vector Spec Rep EsizeThm Refine TightThm NtRefine Proxy Elem World Footprint.
 Import ListNotations.
 Local Open Scope Z_scope.
 
@@ -80,3 +80,42 @@ Theorem C05_every_history_tightly_packed_every_list : forall L cap budget fixed 
   (dend L v = prev_end L v l (length l) \/ dend L v = first_align L (prev_end L v l (length l))).
 Proof. exact tight_every_history_nt. Qed.
 Print Assumptions C05_every_history_tightly_packed_every_list.
+
+(* ---------- footprint of the operations that (re)allocate (third clause of C05) ---------- *)
+(* reserve beyond capacity (lists with a VaryingSize parameter): exactly what a fresh vector of
+   that capacity, byte budget and fixed sizes consumes; within capacity: nothing changes *)
+Theorem C05_reserve_consumes_what_a_fresh_vector_consumes : forall L v n b junk bid tbid aid junk' bid' tbid',
+  has_varying L = true -> v_cap v < n ->
+  consumption L (fst (reserve L v n b junk bid tbid)) =
+  consumption L (fst (mkvec L n b (v_fixed v) aid junk' bid' tbid')).
+Proof. exact reserve_footprint_varying. Qed.
+Print Assumptions C05_reserve_consumes_what_a_fresh_vector_consumes.
+
+Theorem C05_reserve_within_capacity_keeps_the_footprint : forall L v n b junk bid tbid, n <= v_cap v ->
+  consumption L (fst (reserve L v n b junk bid tbid)) = consumption L v.
+Proof. exact reserve_within_capacity_footprint. Qed.
+Print Assumptions C05_reserve_within_capacity_keeps_the_footprint.
+
+(* copy construction, copy assignment, stealing move assignment: what the source consumes *)
+Theorem C05_copies_consume_what_the_source_consumes : forall K L d src junk nb,
+  consumption L (fst (fst (fst (copy_ctor K L src junk nb)))) = consumption L src /\
+  consumption L (fst (fst (fst (copy_assign K L d src junk nb)))) = consumption L src.
+Proof. exact copy_footprint. Qed.
+Print Assumptions C05_copies_consume_what_the_source_consumes.
+
+Theorem C05_stealing_move_takes_over_the_footprint : forall K L d src,
+  consumption L (fst (fst (steal K L d src))) = consumption L src.
+Proof. exact steal_footprint. Qed.
+Print Assumptions C05_stealing_move_takes_over_the_footprint.
+
+(* the full clause is FALSE of the faithful model: element-wise move assignment into a smaller
+   vector requests SA times the source's consumption (known finding move-assign-units) *)
+Theorem C05_move_assignment_footprint_refuted :
+  let d := fst (mkvec fpL 1 0 [] 1 (mfill 170) 0%nat 1%nat) in
+  let src := fst (mkvec fpL 2 0 [] 2 (mfill 170) 2%nat 3%nat) in
+  let d' := fst (fst (fst (move_assign fpK fpL d src (mfill 170) 4%nat))) in
+  consumption fpL d = 8 /\ consumption fpL src = 16 /\
+  consumption fpL (fst (mkvec fpL (v_cap src) 0 [] 1 (mfill 170) 5%nat 6%nat)) = 16 /\
+  consumption fpL d' = 128.
+Proof. exact move_assign_footprint_refuted. Qed.
+Print Assumptions C05_move_assignment_footprint_refuted.
